@@ -1,11 +1,10 @@
 (* C08 — Arc-length queries and refinement preserve the polyline's path.
-   Only statements here; each is closed by `exact <lemma>` from proofs/P_polyline_length.v.
-   point_along_path and with_segments_bisected are the REPAIRED versions (fixes/C08-point-along-path-end.diff,
-   fixes/C08-bisect-empty.diff); on the unrepaired tree the correspondence check reports the defects. *)
+   Only statements here; each is closed by `exact <lemma>` from proofs/P_polyline_length.v, P_polyline_length2.v.
+   point_along_path and with_segments_bisected are the repaired versions (fix commits b4dc017, b67c153). *)
 From Coq Require Import ZArith Reals List Bool Lra.
 From PW Require Import Num NumR Vec NpList Result.
 From PW.model Require Import M_polyline_base M_segment M_polyline_nearest M_polyline_length.
-From PW.proofs Require Import P_segment P_polyline_length.
+From PW.proofs Require Import P_segment P_polyline_length P_polyline_length2.
 Import ListNotations.
 Local Open Scope R_scope.
 
@@ -23,11 +22,19 @@ Theorem C08_lengths_sum_centroid : forall pl,
   (total_length ROps pl = 0 -> path_centroid ROps pl = Raise ZeroDivisionError).
 Proof. exact lengths_sum_centroid. Qed.
 
+(* ---- point_along_path ---- *)
+(* the segments of a polyline form a chain that starts at the first vertex (what makes `walk` a walk along the path) *)
+Theorem C08_segments_form_a_chain : forall pl h t, pv pl = h :: t -> chained h (pl_segments pl).
+Proof. exact pl_segments_chained. Qed.
 (* point_along_path(f) = the point reached after travelling f x total_length from the first vertex
    (`walk`: zero-length segments are skipped; past the last segment it stays at that segment's end) *)
 Theorem C08_point_along_path_spec : forall pl h t f, pv pl = h :: t -> 0 <= f <= 1 -> 0 < total_length ROps pl ->
   point_along_one ROps pl f = Some (walk h (pl_segments pl) (total_length ROps pl * f)).
 Proof. exact point_along_path_spec. Qed.
+(* f = 0: the first vertex, also when the polyline begins with zero-length segments *)
+Theorem C08_point_along_path_f0 : forall pl h t, pv pl = h :: t -> 0 < total_length ROps pl ->
+  point_along_one ROps pl 0 = Some h.
+Proof. exact point_along_f0. Qed.
 (* f = 1: the end of the last segment — the first vertex again if closed, the last vertex if open — also when the
    last segment(s) have zero length (no NaN) *)
 Theorem C08_point_along_path_f1 : forall pl, point_along_one ROps pl 1 = path_end pl.
@@ -35,11 +42,21 @@ Proof. exact point_along_f1. Qed.
 Theorem C08_path_end_is_end_of_last_segment : forall pl h t, pv pl = h :: t ->
   path_end pl = Some (segs_end h (pl_segments pl)) /\
   path_end pl = Some (if pclosed pl then h else last t h).
-Proof. intros pl h t E. split; [exact (path_end_is_segs_end pl h t E)|]. unfold path_end. rewrite E. reflexivity. Qed.
+Proof. exact path_end_is_end_of_last_segment. Qed.
 (* beyond the total length the specification stays at the end of the path *)
 Theorem C08_walk_past_end : forall segs dflt l, nsum ROps (map (seg_len ROps) segs) <= l ->
   walk dflt segs l = segs_end dflt segs.
 Proof. exact walk_past_end. Qed.
+(* continuity: the specification is 1-Lipschitz in the arc length ... *)
+Theorem C08_walk_lipschitz : forall segs start l1 l2, chained start segs -> 0 <= l1 -> 0 <= l2 ->
+  vnorm ROps (vsub ROps (walk start segs l1) (walk start segs l2)) <= Rabs (l1 - l2).
+Proof. exact walk_lipschitz. Qed.
+(* ... hence the result varies continuously with f: |p(f1) - p(f2)| <= L |f1 - f2| *)
+Theorem C08_point_along_path_continuous : forall pl h t f1 f2 p1 p2, pv pl = h :: t -> 0 < total_length ROps pl ->
+  0 <= f1 <= 1 -> 0 <= f2 <= 1 ->
+  point_along_one ROps pl f1 = Some p1 -> point_along_one ROps pl f2 = Some p2 ->
+  vnorm ROps (vsub ROps p1 p2) <= total_length ROps pl * Rabs (f1 - f2).
+Proof. exact point_along_lipschitz. Qed.
 (* stacked fractions are answered row by row; a fraction outside [0,1] is refused *)
 Theorem C08_point_along_path_stacked : forall pl fs, pv pl <> [] -> (forall x, In x fs -> 0 <= x <= 1) ->
   exists ps, point_along_path ROps pl fs = Ok ps /\ length ps = length fs /\
@@ -66,7 +83,7 @@ Theorem C08_subdivide_inserted_even : forall (n : Z) s j, (1 < n)%Z -> (j < Z.to
   nth_error (inserted_on ROps n s) j =
   Some (vadd ROps (vscale ROps (IZR (Z.of_nat (S j)) / IZR n) (vsub ROps (snd s) (fst s))) (fst s)) /\
   length (inserted_on ROps n s) = (Z.to_nat n - 1)%nat.
-Proof. intros n s j Hn Hj. exact (conj (inserted_on_nth n s j Hn Hj) (inserted_on_length n s)). Qed.
+Proof. exact subdivide_inserted_even. Qed.
 (* original vertex k sits at the reported index, the points inserted on the edge leaving it follow it directly,
    reported indices increase strictly; for every list of per-edge insertions (any mask, any max_length) *)
 Theorem C08_subdivide_keeps_originals : forall (vs : list (vec3 R)) ins k v il,
@@ -74,34 +91,53 @@ Theorem C08_subdivide_keeps_originals : forall (vs : list (vec3 R)) ins k v il,
   exists i, nth_error (index_map_from 0 ins) k = Some i /\
     nth_error (interleave vs ins) i = Some v /\
     (forall j p, nth_error il j = Some p -> nth_error (interleave vs ins) (S (i + j)) = Some p).
-Proof.
-  intros vs ins k v il Hv Hi. destruct (interleave_spec vs ins [] k v il Hv Hi) as [i [H1 [H2 [H3 _]]]].
-  exists i. exact (conj H1 (conj H2 H3)).
-Qed.
+Proof. exact subdivide_keeps_originals. Qed.
 Theorem C08_subdivide_indices_increase : forall (ins : list (list (vec3 R))) k i j,
   nth_error (index_map_from 0 ins) k = Some i -> nth_error (index_map_from 0 ins) (S k) = Some j -> (i < j)%nat.
-Proof. intros ins. exact (index_map_increasing ins 0%nat). Qed.
-(* closedness is kept; a mask of the wrong length is refused *)
+Proof. exact subdivide_indices_increase. Qed.
+(* the result: same closedness, vertices = originals interleaved with the per-edge insertions, reported indices =
+   the index map of that interleaving; a mask of the wrong length is refused *)
 Theorem C08_subdivide_closedness : forall pl mx mask r, subdivided_by_length ROps pl mx mask = Ok r ->
   pclosed (fst r) = pclosed pl /\
   pv (fst r) = interleave (pv pl) (inserts_per_vertex ROps pl mx
+                 (match mask with Some m => m | None => repeat true (length (pl_segments pl)) end)) /\
+  snd r = index_map_from 0 (inserts_per_vertex ROps pl mx
                  (match mask with Some m => m | None => repeat true (length (pl_segments pl)) end)).
-Proof.
-  intros pl mx mask r H. unfold subdivided_by_length in H. destruct mask as [m|].
-  - destruct (Nat.eqb (length m) (length (pl_segments pl))); [|discriminate]. injection H as <-. split; reflexivity.
-  - injection H as <-. split; reflexivity.
-Qed.
-(* PARTIAL: total length preserved is NOT proved as a theorem (needs |s v| = |s| |v| through sqrt and the sum over
-   the interleaved chain); it is checked by the oracle on every subdivision case. *)
-Theorem C08_subdivide_length_preserved_partial : forall (n : Z) s, (1 < n)%Z ->
-  length (inserted_on ROps n s) = (Z.to_nat n - 1)%nat.
-Proof. intros n s _. exact (inserted_on_length n s). Qed.
+Proof. exact subdivide_closedness. Qed.
+Theorem C08_subdivide_mask_refused : forall pl mx m, length m <> length (pl_segments pl) ->
+  subdivided_by_length ROps pl mx (Some m) = Raise ValueError.
+Proof. exact subdivide_mask_refused. Qed.
+(* total length is unchanged, for every polyline (open/closed, zero-length segments), mask and max_length *)
+Theorem C08_subdivide_length_preserved : forall pl mx mask r, subdivided_by_length ROps pl mx mask = Ok r ->
+  total_length ROps (fst r) = total_length ROps pl.
+Proof. exact subdivide_length_preserved. Qed.
 
 (* ---- with_segments_bisected (repaired) ---- *)
+(* for every index set (any order, empty or not): same closedness; the new vertex list is the old one with, directly
+   before vertex k, the midpoints of the chosen segments that END at vertex k (the closing edge ends at vertex 0);
+   exactly the chosen segments' midpoints are inserted; total length is unchanged *)
+Theorem C08_bisect_spec : forall pl idx r, bisect ROps pl idx = Ok r ->
+  pclosed (fst (fst r)) = pclosed pl /\
+  pv (fst (fst r)) = insert_multi_from 0 (pv pl) (bisect_ips pl idx) /\
+  total_length ROps (fst (fst r)) = total_length ROps pl /\
+  (forall i s, In i idx -> nth_error (pl_segments pl) i = Some s ->
+     In (seg_mid ROps s) (points_at (edge_end pl i) (bisect_ips pl idx))) /\
+  (forall k p, In p (points_at k (bisect_ips pl idx)) ->
+     exists i s, In i idx /\ nth_error (pl_segments pl) i = Some s /\ edge_end pl i = k /\ p = seg_mid ROps s).
+Proof. exact bisect_spec. Qed.
 Theorem C08_bisect_empty_is_identity : forall pl, exists o, bisect ROps pl [] = Ok (pl, o, []).
 Proof. exact bisect_empty. Qed.
-Theorem C08_bisect_closedness : forall pl idx r, bisect ROps pl idx = Ok r -> pclosed (fst (fst r)) = pclosed pl.
-Proof. exact bisect_closedness. Qed.
+Theorem C08_bisect_out_of_range : forall pl idx i, In i idx -> (length (pl_segments pl) <= i)%nat ->
+  bisect ROps pl idx = Raise IndexError.
+Proof. exact bisect_out_of_range. Qed.
+(* ret_new_indices: when no segment is chosen twice (distinct end vertices) every original vertex is found at its
+   reported new index.  PARTIAL: the reported indices of the INSERTED points are not characterised by a theorem
+   (compared with the model on every correspondence case; the oracle checks that each one holds its midpoint). *)
+Theorem C08_bisect_new_indices_partial : forall pl idx r, bisect ROps pl idx = Ok r ->
+  NoDup (map (edge_end pl) idx) ->
+  forall k v, nth_error (pv pl) k = Some v ->
+    exists i, nth_error (snd (fst r)) k = Some i /\ nth_error (pv (fst (fst r))) i = Some v.
+Proof. exact bisect_orig_indices. Qed.
 
 (* ---- subdivide_segment / subdivide_segments ---- *)
 Theorem C08_subdivide_segment_spec : forall p1 p2 (num : Z) endpoint, (2 <= num)%Z ->
@@ -113,12 +149,17 @@ Proof. exact subdivide_segment_spec. Qed.
 Theorem C08_subdivide_segment_refuses : forall p1 p2 num endpoint, (num < 2)%Z ->
   subdivide_segment ROps p1 p2 num endpoint = Raise ValueError.
 Proof. exact subdivide_segment_refuses. Qed.
-(* each segment of positive length gets its num evenly spaced points *)
-Theorem C08_subdivide_segments_spec_partial : forall num a b k, a <> b -> (k < num)%nat ->
-  nth_error (subdiv_seg_rows ROps num (a, b)) k =
-  Some (Some (vadd ROps a (vscale ROps (IZR (Z.of_nat k) / IZR (Z.of_nat num)) (vsub ROps b a)))).
-Proof. exact subdiv_seg_rows_spec. Qed.
-(* ... but a zero-length segment yields NaN rows (known finding) *)
+(* subdivide_segments on a chain without zero-length segments: num evenly spaced rows per segment (row e*num + k is
+   a_e + (k/num)(b_e - a_e)), then the last vertex *)
+Theorem C08_subdivide_segments_spec : forall h t num,
+  (forall a b, In (a, b) (open_segments (h :: t)) -> a <> b) ->
+  length (subdivide_segments ROps (h :: t) num) = S (length t * num) /\
+  (forall e a b k, nth_error (open_segments (h :: t)) e = Some (a, b) -> (k < num)%nat ->
+     nth_error (subdivide_segments ROps (h :: t) num) (e * num + k) =
+     Some (Some (vadd ROps a (vscale ROps (IZR (Z.of_nat k) / IZR (Z.of_nat num)) (vsub ROps b a))))) /\
+  nth_error (subdivide_segments ROps (h :: t) num) (length t * num) = Some (Some (last t h)).
+Proof. exact subdivide_segments_spec. Qed.
+(* ... but a zero-length segment yields NaN rows (known finding subdivide_segments_zero_length) *)
 Theorem C08_subdivide_segments_zero_length_refuted :
   exists vs num k, nth_error (subdivide_segments ROps vs num) k = Some None.
 Proof. exact subdivide_segments_zero_length_refuted. Qed.
@@ -134,11 +175,12 @@ Proof.
   unfold seg_len. apply P_vec.vnorm_pos. cbn [fst snd]. P_vec.vunf. intros Hv. injection Hv as H1 H2 H3. lra.
 Qed.
 
-Definition C08_all := (C08_lengths_sum_centroid, C08_point_along_path_spec, C08_point_along_path_f1,
-  C08_path_end_is_end_of_last_segment, C08_walk_past_end, C08_point_along_path_stacked,
+Definition C08_all := (C08_lengths_sum_centroid, C08_segments_form_a_chain, C08_point_along_path_spec,
+  C08_point_along_path_f0, C08_point_along_path_f1, C08_path_end_is_end_of_last_segment, C08_walk_past_end,
+  C08_walk_lipschitz, C08_point_along_path_continuous, C08_point_along_path_stacked,
   C08_point_along_path_out_of_range, C08_subdivide_minimal_parts, C08_subdivide_untouched,
   C08_subdivide_inserted_even, C08_subdivide_keeps_originals, C08_subdivide_indices_increase,
-  C08_subdivide_closedness, C08_subdivide_length_preserved_partial, C08_bisect_empty_is_identity,
-  C08_bisect_closedness, C08_subdivide_segment_spec, C08_subdivide_segment_refuses,
-  C08_subdivide_segments_spec_partial, C08_subdivide_segments_zero_length_refuted).
+  C08_subdivide_closedness, C08_subdivide_mask_refused, C08_subdivide_length_preserved, C08_bisect_spec,
+  C08_bisect_empty_is_identity, C08_bisect_out_of_range, C08_bisect_new_indices_partial, C08_subdivide_segment_spec,
+  C08_subdivide_segment_refuses, C08_subdivide_segments_spec, C08_subdivide_segments_zero_length_refuted).
 Print Assumptions C08_all.
